@@ -31,8 +31,9 @@ def main():
     ap.add_argument("--props", default="all")
     ap.add_argument("--keep", action="store_true")
     ap.add_argument("--name", default=None)
+    ap.add_argument("--wt", default="/tmp/mut-%s")
     a = ap.parse_args()
-    src = a.src or "/tmp/mut-%s-out" % a.id
+    src = a.src or (a.wt % a.id) + "-out"
     name = a.name or a.id
     patch = os.path.join(src, "patch.diff")
     demo = os.path.join(src, "demo.py")
@@ -63,7 +64,7 @@ def main():
         caught, details = [], {}
         for p in props:
             t0 = time.time()
-            env = dict(os.environ, VERIF_REPO=wt)
+            env = dict(os.environ, VERIF_REPO=wt, VERIF_STOP_FIRST="1")
             rr = subprocess.run([sys.executable, os.path.join(VERIF, "check.py"), "--property", p, "--tier", "quick",
                                  "--no-evidence"], env=env, capture_output=True, text=True, cwd=VERIF)
             lines = [l for l in rr.stdout.splitlines() if l.startswith(("VIOLATION", "  clause", "HARNESS"))]
